@@ -146,6 +146,19 @@ fn main() {
         let bufs = [std::io::IoSlice::new(&[]), std::io::IoSlice::new(&data), std::io::IoSlice::new(b"zz")];
         let (rm, rp) = (res(Write::write_vectored(&mut m, &bufs)), res(p.write_vectored(&bufs)));
         emit(&format!("write_vectored#{k}"), format!("{rm}|{}", dump(&lm)), format!("{rp}|{}", dump(&lp)));
+        // ---- a provided method (upstream default body over the mocked required one), then explicit verification:
+        //      the instance that ran the default body verifies like any other
+        if k < 4 {
+            let lm = log_of();
+            let l = lm.clone();
+            let mut m = mk(k % 2 == 1, WriteMock::write.each_call(matching!(_)).answers_arc(Arc::new(move |_, buf: &[u8]| { push(&l, format!("write{:?}", buf)); Ok(buf.len()) })));
+            let r = res(Write::write_all(&mut m, b"ab"));
+            let v = match std::panic::catch_unwind(std::panic::AssertUnwindSafe(move || if k < 2 { m.verify() } else { drop(m) })) {
+                Ok(()) => "verified".to_string(),
+                Err(p) => format!("verify-panic:{}", p.downcast_ref::<String>().cloned().unwrap_or_default().lines().next().unwrap_or("")),
+            };
+            emit(&format!("write_all+verify#{k}"), format!("{r}|{}|{v}", dump(&lm)), "Ok(())|write[97, 98]|verified".to_string());
+        }
         // ---- Read::read_exact / read_to_end / read_to_string / read_vectored
         let script = gen_rscript(rng, false);
         let want = rng.below(8) as usize;
